@@ -124,6 +124,11 @@ class LoggedAction(PClass):
 
             if messageLevel[:-1] == levelPrefix:
                 status = message.get(ACTION_STATUS_FIELD)
+                if message.get(ACTION_TYPE_FIELD) is None:
+                    # Not an action's start or end message (as far as
+                    # eliot.parse is concerned either), even if it happens
+                    # to have a field called "action_status":
+                    status = None
                 if status == STARTED_STATUS:
                     startMessage = message
                 elif status in COMPLETED_STATUSES:
